@@ -365,6 +365,11 @@ fn run_cli(op: &Value, file: &mut String, cfg: &Cfg, cli: Option<&str>, events: 
     match current.as_str() {
         "omit" => {}
         "garbage" => args.push("--time-limited-current=not-a-time".into()),
+        // "naive": the digits of the current instant (UTC) without any zone, the way `to` attributes are written
+        "naive" => {
+            let t = chrono::DateTime::from_timestamp(cfg.now.0 * 86400 + cfg.now.1, 0).unwrap();
+            args.push(format!("--time-limited-current={}", t.format("%Y-%m-%d %H:%M:%S")));
+        }
         _ => args.push(format!("--time-limited-current={}", rfc3339(cfg.now.0, cfg.now.1, cfg.now_ms, zone_min))),
     }
     // targets: the behaviour says which go through the file and which through flags
